@@ -427,6 +427,20 @@ def install(reg):
     for nm in ("exp", "log", "log10", "sqrt", "sin", "cos"):
         _ew1(nm, nm)
 
+    @fn("numpy.log1p")
+    def np_log1p(itp, a, k):
+        v = to_array_if_seq(itp, a[0])
+        return A.ewise(itp.cx, lambda x: mathfn.apply(itp.cx, "log", T.add(1, x)), [v], "real")
+
+    @fn("numpy.expm1")
+    def np_expm1(itp, a, k):
+        v = to_array_if_seq(itp, a[0])
+        return A.ewise(itp.cx, lambda x: T.sub(mathfn.apply(itp.cx, "exp", x), 1), [v], "real")
+
+    @fn("numpy.power")
+    def np_power(itp, a, k):
+        return itp.binop("Pow", a[0], a[1])
+
     @fn("numpy.abs")
     def np_abs(itp, a, k):
         v = to_array_if_seq(itp, a[0])
